@@ -200,6 +200,11 @@ def generated_document(rng):
 
 
 # ---------------------------------------------------------------- one history
+# the document types of ODF 1.2 (an independent list: not read from the library's tables)
+ODF_TYPES = ["application/vnd.oasis.opendocument." + t for t in (
+    "text", "text-template", "spreadsheet", "spreadsheet-template", "presentation", "presentation-template", "graphics", "graphics-template",
+    "chart", "chart-template", "image", "image-template", "formula", "formula-template", "text-master", "text-web")]
+
 _PNG_A = (b"\x89PNG\r\n\x1a\n\x00\x00\x00\rIHDR\x00\x00\x00\x01\x00\x00\x00\x01\x08\x02\x00\x00\x00\x90wS\xde\x00\x00\x00\x0cIDATx\x9cc\xf8\xcf\xc0"
           b"\x00\x00\x03\x01\x01\x00\xc9\xfe\x92\xef\x00\x00\x00\x00IEND\xaeB`\x82")
 
@@ -225,7 +230,7 @@ def merge_source(doc_type: str):
     return source, pics
 
 
-def history(seed: int, nsteps: int = 10, sources=None) -> list:
+def history(seed: int, nsteps: int = 10, sources=None, forced=None) -> list:
     from odfdo import Document, DrawPage, Paragraph, Style, Table
 
     rng = random.Random(seed)
@@ -293,15 +298,27 @@ def history(seed: int, nsteps: int = 10, sources=None) -> list:
         resave = rng.random() < 0.2
         # one history out of six also merges the styles of another document (which brings picture parts along)
         merging = not resave and rng.random() < 0.17
-        resave_pack = rng.choice(["folder", "folder", "zip"])
+        # one out of eight changes the declared type of the document on the way (mimetype part + root entry of the manifest,
+        # as the library itself does when it makes a document out of a template)
+        retyping = not resave and not merging and rng.random() < 0.125
+        resave_pack = rng.choice(["folder", "folder", "zip", "mem", "mem"])      # "mem": one and the same io.BytesIO, again and again
+        mem_target = io.BytesIO()
+        if forced:
+            resave = merging = False
+            retyping = True
+            nsteps = len(forced)
         for _ in range(nsteps):
             k += 1
-            if resave:
+            want = forced[k - 1] if forced else {}
+            if forced:
+                op = want["op"]
+            elif resave:
                 op = rng.choice(["add_file", "add_file", "del_part", "del_part", "save", "save", "save", "edit", "reopen"])
             else:
                 op = rng.choice(["edit", "edit", "edit", "set_part", "del_part", "add_file", "add_file", "save", "save", "save", "reopen", "clone", "read"]
                                 + (["save_twin", "save_twin"] if "twin" in handles else [])
-                                + (["merge", "merge", "del_part", "save"] if merging else []))
+                                + (["merge", "merge", "del_part", "save"] if merging else [])
+                                + (["retype", "save", "reopen"] if retyping else []))
             ev = {"op": op}
             try:
                 if op == "edit":
@@ -360,6 +377,15 @@ def history(seed: int, nsteps: int = 10, sources=None) -> list:
                     deleted_any = True
                     ev["part"] = name
                     known.discard(name)
+                elif op == "retype":
+                    mt = want.get("mt") or rng.choice(ODF_TYPES)
+                    doc.mimetype = mt
+                    doc.manifest.set_media_type("/", mt)
+                    ev["op"] = "set_part"
+                    ev["part"] = "mimetype"
+                    ev["new"] = part_ids("mimetype", mt.encode(), ids)
+                    ev["retype"] = mt
+                    known.add("mimetype")
                 elif op == "merge":
                     source, pics = merge_source(doc_type)
                     doc.merge_styles_from(source)
@@ -404,8 +430,9 @@ def history(seed: int, nsteps: int = 10, sources=None) -> list:
                 elif op == "save":
                     # flat XML embeds the images the content refers to: not meaningful once a referenced part was deleted
                     packaging = rng.choice(["zip", "zip", "zip", "folder", "xml"] if not deleted_any else ["zip", "zip", "folder"])
+                    packaging = want.get("packaging", packaging)
                     if resave:
-                        packaging = resave_pack
+                        packaging = "zip" if resave_pack == "mem" else resave_pack
                     pretty = rng.choice([False, False, True]) if packaging == "zip" else True
                     tkey = f"t{k}"
                     # one save out of three goes onto a target written by an earlier save of the same packaging
@@ -420,7 +447,11 @@ def history(seed: int, nsteps: int = 10, sources=None) -> list:
                         ev["again"] = True
                     ev.update(target=tkey, packaging=packaging, pretty=pretty)
                     if packaging == "zip":
-                        if base is not None:
+                        if resave and resave_pack == "mem":
+                            target = mem_target
+                            tkey = "tmem"
+                            ev.update(target=tkey, again=True)
+                        elif base is not None:
                             target = base
                         elif rng.random() < 0.5 and not resave:
                             target = io.BytesIO()
@@ -596,6 +627,13 @@ def lazy_clone_history(seed: int) -> list:
 
 def _gen(args):
     seed, n, sources = args
+    if isinstance(sources, tuple) and sources[0] == "retype-sweep":
+        # every document type of the standard x every packaging: declared, saved, reopened
+        i = sources[1]
+        mt = ODF_TYPES[i % len(ODF_TYPES)]
+        pack = ("zip", "folder", "zip")[i // len(ODF_TYPES) % 3]
+        return history(seed, 4, ["text", "spreadsheet", "presentation", "drawing"][i % 4:][:1],
+                       forced=[{"op": "retype", "mt": mt}, {"op": "save", "packaging": pack}, {"op": "reopen"}, {"op": "read"}])
     if sources == "lazy-clone":
         return lazy_clone_history(seed)
     return history(seed, n, sources)
@@ -604,6 +642,8 @@ def _gen(args):
 def generate(ntraces: int, seed: int, nsteps: int = 10, procs=None, sources=None) -> list:
     procs = procs or min(16, os.cpu_count() or 4)
     jobs = [(seed * 1_000_033 + i, nsteps, sources) for i in range(ntraces)]
+    if sources == "retype-sweep":
+        jobs = [(seed * 1_000_033 + i, nsteps, ("retype-sweep", i)) for i in range(3 * len(ODF_TYPES))]
     with mp.get_context("fork").Pool(procs) as pool:
         return pool.map(_gen, jobs, chunksize=max(1, ntraces // (procs * 4)))
 
